@@ -1136,6 +1136,9 @@ impl Bgi {
     }
 
     pub fn draw_poly(&mut self, points: &[Position]) {
+        if points.is_empty() {
+            return;
+        }
         let mut last_point = points[0];
         for point in points {
             self.line(last_point.x, last_point.y, point.x, point.y);
@@ -1145,6 +1148,9 @@ impl Bgi {
     }
 
     pub fn draw_poly_line(&mut self, points: &[Position]) {
+        if points.is_empty() {
+            return;
+        }
         let mut last_point = points[0];
         for point in points {
             self.line(last_point.x, last_point.y, point.x, point.y);
